@@ -54,6 +54,10 @@ func partial(t *rapid.T, label string, wild, pre, build bool) string {
 		parts = append(parts, litNum(t, label+"c"))
 	}
 	s := strings.Join(parts, ".")
+	if n < 3 && pre && rapid.IntRange(0, 11).Draw(t, label+"shortpre") == 0 {
+		// a prerelease on a short form (1-0, 1.0-0 are both 1.0.0-0)
+		return s + "-" + rapid.SampledFrom([]string{"0", "alpha", "rc.1"}).Draw(t, label+"spre")
+	}
 	if n == 3 {
 		if pre && rapid.IntRange(0, 9).Draw(t, label+"hp") < 3 {
 			s += "-" + rapid.SampledFrom(litPres).Draw(t, label+"pre")
@@ -363,6 +367,15 @@ func BoundaryVersions(style string, texts ...string) []string {
 			}
 			switch style {
 			case "semver", "go":
+				// the short forms of the literal's own numbers with a prerelease
+				// (1-0 and 1.0-0 are spellings of 1.0.0-0)
+				if n[2] == 0 && !big {
+					add(pfx + strconv.FormatUint(n[0], 10) + "." + strconv.FormatUint(n[1], 10) + "-0")
+					if n[1] == 0 {
+						add(pfx + strconv.FormatUint(n[0], 10) + "-0")
+						add(pfx + strconv.FormatUint(n[0], 10) + "-alpha")
+					}
+				}
 				for _, r := range rel[:minInt(len(rel), 4)] {
 					add(r + "-0")
 					add(r + "-alpha")
